@@ -215,6 +215,43 @@ example : (handle sPaid rMintOver).2 = ⟨400, "{}"⟩ := by decide
 example : ((handle sPaid rMintOver).1.mint.w.db.mintQ.map (·.state)) = [.pending] := by decide
 end RawWitness
 
+
+/-! ## 3b. Routing and status codes -/
+
+/-- Every answer carries one of six status codes; 301 / 404 / 405 come from the router alone (unclean path, no route,
+    only the method mismatches) and 0 marks what the model does not cover (websocket upgrade, misuse of the model). -/
+theorem status_range (s : WSess) (r : Request) : (handle s r).2.status ∈ [200, 400, 301, 404, 405, 0] :=
+  handleX_status s r
+
+/-- A request that reaches a handler is answered 200 or 400 — nothing else. -/
+theorem status_200_or_400 {s : WSess} {r : Request} {h : Handler} {p : Parsed} {op : Op} (hr : Reaches r h p op) :
+    (handle s r).2.status = 200 ∨ (handle s r).2.status = 400 := by
+  simp only [handle_eq, handleX_reaches hr]
+  exact runHandler_status s h p op r
+
+/-- The `setupHeaders` middleware answers every `OPTIONS` request on a routed path itself: 200, empty body, nothing
+    touched — the handler (and so the cache and the mint) is never reached. -/
+theorem options_answered (s : WSess) (r : Request) (hm : r.method = "OPTIONS") (hc : unclean r.segs = false)
+    {h : Handler} {vars : List (String × String)} (hroute : route r.method r.segs = .found h vars) :
+    handle s r = (s, ⟨200, ""⟩) := by
+  rw [handle_eq]
+  unfold handleX
+  rw [hm] at hroute
+  simp [hc, hm, hroute]
+
+/-- Routing witnesses (mux tries the routes in source order; `{method}` is checked by the handler, not the router). -/
+example : route "POST" ["v1", "swap"] = .found .swapRequest [] := by decide
+example : route "POST" ["v1", "mint", "quote", "bolt11"] = .found .mintRequest [("method", "bolt11")] := by decide
+example : route "POST" ["v1", "mint", "quote"] = .found .mintTokensRequest [("method", "quote")] := by decide
+example : route "POST" ["v1", "mint", "quote", "bolt11", "abc"] = .found .mintQuoteState [("method", "bolt11"), ("quote_id", "abc")] := by decide
+example : route "GET" ["v1", "swap"] = .methodNotAllowed ∧ route "get" ["v1", "keys"] = .methodNotAllowed := by decide
+example : route "GET" ["v1", "keys", ""] = .notFound ∧ route "OPTIONS" ["v1", "nothing"] = .notFound := by decide
+example : unclean ["v1", "", "keys"] = true ∧ unclean ["v1", "..", "keys"] = true ∧ unclean ["v1", "keys", ""] = false := by decide
+/-- `{method}` other than bolt11 is refused with 11003 before the body is looked at. -/
+example : (handle { mint := initSess 0 false {} }
+    { method := "POST", segs := ["v1", "melt", "onchain"], url := "/v1/melt/onchain", body := "garbage", dec := .syntaxErr }).2 =
+    ⟨400, "{\"detail\":\"payment method not supported\",\"code\":11003}"⟩ := by decide
+
 /-! ## 4. Codes -/
 
 /-- Every error variable of cashu/cashu.go that expresses a cause of the NUT error table carries the table's code,
@@ -296,6 +333,35 @@ theorem internal_generic (name : String) :
     simp only [List.mem_cons, List.mem_nil_iff, or_false] at hh
     rcases hh with rfl | rfl | rfl <;> exact hstd
   · show errResp eUnableToPay = _; decide
+
+
+/-- At the level of whole requests: whenever the operation behind a request fails with an internal code (DB = 1,
+    LN = 2), the client receives the constant body — whatever the internal message — for every handler and code except
+    the two latent combinations above. -/
+theorem internal_generic_response {s : WSess} {r : Request} {h : Handler} {p : Parsed} {op : Op} {c : Nat} {name : String}
+    (hr : Reaches r h p op) (hm : Miss s h r)
+    (hres : resTree p (applyOp (armLn s.mint r.lnFail) op).2 = .error (c, name))
+    (hc : c = 1 ∨ (c = 2 ∧ h ≠ .swapRequest ∧ h ≠ .meltQuoteRequest)) :
+    (handle s r).2 = ⟨400, stdBody⟩ ∨
+    (h = .meltTokens ∧ c = 2 ∧ (handle s r).2 = ⟨400, "{\"detail\":\"unable to send payment\",\"code\":10000}"⟩) := by
+  rw [body_of_outcome hr hm, hres]
+  have hstd : (⟨400, (errTree eStandard).render⟩ : Response) = ⟨400, stdBody⟩ := by decide
+  have hpay : (⟨400, (errTree eUnableToPay).render⟩ : Response) = ⟨400, "{\"detail\":\"unable to send payment\",\"code\":10000}"⟩ := by decide
+  obtain ⟨_, _, _, _, _⟩ := hr.plain
+  simp only
+  rcases hc with rfl | ⟨rfl, hs, hq⟩
+  · left
+    have hme : mapErr h (1, name) = eStandard := by cases h <;> first | rfl | contradiction
+    rw [hme]; exact hstd
+  · by_cases hmt : h = .meltTokens
+    · subst hmt
+      right
+      have hme : mapErr .meltTokens (2, name) = eUnableToPay := rfl
+      rw [hme]
+      exact ⟨rfl, rfl, hpay⟩
+    · left
+      have hme : mapErr h (2, name) = eStandard := by cases h <;> first | rfl | contradiction
+      rw [hme]; exact hstd
 
 /-- The handlers where this is NOT so, precisely: swapRequest and meltQuoteRequest test only `DBErrCode`; an LN-coded
     error would leave them with its internal code and message.  (Neither `Swap` nor `RequestMeltQuote` builds an
